@@ -418,6 +418,21 @@ func run(t *rapid.T, sc *scenario, prefix []int, pick func(n int) int) *result {
 	if msg := w.Store.CheckImmutable(); msg != "" {
 		return failf("the metastore was modified: %s", msg)
 	}
+	// a process whose system-key insert was refused adopts the STORED latest key: no intermediate key
+	// written during the race hangs under a system key that had already expired when the race began
+	raceAt := time.Unix(0, w.Now())
+	for _, c := range w.Log.Calls[callsBefore:] {
+		if c.Target != "store" || c.Op != "Store" || !c.OK || !strings.HasPrefix(c.ID, "_IK_") {
+			continue
+		}
+		row := w.Store.Get(c.ID, c.Created)
+		if row == nil || row.Rec.ParentKeyMeta == nil {
+			continue
+		}
+		if skc := time.Unix(row.Rec.ParentKeyMeta.Created, 0); raceAt.Sub(skc) > pol.ExpireKeyAfter+pol.CreateDatePrecision+2*time.Second {
+			return failf("IK row (%s,%d) written by %s during the race names system key created %d, which had expired (lifetime %s) before the race; the stored replacement was not adopted", c.ID, c.Created, c.Actor, row.Rec.ParentKeyMeta.Created, pol.ExpireKeyAfter)
+		}
+	}
 	// every generated key that was not persisted has been discarded
 	stored := map[string]bool{}
 	for _, r := range w.Store.Rows() {
